@@ -22,7 +22,7 @@ Terms
 ``("next", s)``  ``("hasattr", t, name)``  ``("len", t)``  ``("pure", fname, args)``
 ``("binop", op, a, b)``  ``("unop", op, a)``  ``("cmp", op, a, b)``  ``("boolop", op, vals)``
 ``("func", dotted)``  ``("cls", qual)``  ``("ext", dotted)``  ``("mod", name)``  ``("localfn", k)``
-``("opq", why)``.
+``("obj", name)`` (scenario value: some object that is not None)  ``("opq", why)``.
 
 Nothing here matches on source text or variable names: terms are built from resolved symbols and
 data flow only (a renamed local or an introduced temporary yields the same terms).
@@ -722,7 +722,7 @@ class Prov:
                     return None
             if op in ("Is", "IsNot") and (a == NONE or b == NONE):
                 other = b if a == NONE else a
-                if isinstance(other, tuple) and other and other[0] in ("tuple", "list", "dict", "newlist", "cls", "func", "self", "localfn"):
+                if isinstance(other, tuple) and other and other[0] in ("tuple", "list", "dict", "newlist", "cls", "func", "self", "localfn", "obj"):
                     return op == "IsNot"
             if op in ("Eq", "NotEq") and isinstance(a, tuple) and isinstance(b, tuple) and a[0] == "dict" and b[0] == "dict" \
                     and not a[1] and not b[1]:
